@@ -1098,4 +1098,238 @@ theorem sinv_run_from (cfg : Cfg) (sched : List Act) : ∀ s : St, SInv s → SI
 theorem sinv_run (cfg : Cfg) (sched : List Act) : SInv (run cfg init sched) :=
   sinv_run_from cfg sched init sinv_init
 
+
+/-! ## a channel's `start` is written once -/
+
+theorem take_chan {s s' : St} {c : Nat} {drain : Bool} (h : s.take c drain = some s') (j : Nat) :
+    (s'.chan j).start = (s.chan j).start ∧ (s'.chan j).stat = (s.chan j).stat := by
+  unfold St.take at h
+  split at h
+  · cases h
+    by_cases hj : j = c
+    · subst hj; cases drain <;> simp
+    · simp [hj]
+  · cases h
+
+theorem deliver_chan (s : St) (d : Nat) (x : Msg) (i : Nat) (j : Nat) :
+    ((s.deliver d x i).chan j).start = (s.chan j).start ∧ ((s.deliver d x i).chan j).stat = (s.chan j).stat := by
+  unfold St.deliver
+  by_cases hj : j = d
+  · subst hj; simp
+  · simp [hj]
+
+theorem read_chan {s s' : St} {c : Nat} {drain : Bool} (h : s.read c drain = some s') (j : Nat) :
+    (s'.chan j).start = (s.chan j).start ∧ (s'.chan j).stat = (s.chan j).stat := by
+  unfold St.read at h
+  split at h
+  · next s1 h1 => cases h; exact take_chan h1 j
+  · split at h
+    · next x i ho =>
+      obtain ⟨a, b⟩ := take_chan h j
+      obtain ⟨c1, c2⟩ := deliver_chan s c x i j
+      exact ⟨a.trans c1, b.trans c2⟩
+    · cases h
+
+/-- once a channel has been appended to the list (`fresh = false`), no step changes its `start` or makes it fresh -/
+theorem step_start_stable {cfg : Cfg} {s s' : St} {a : Act} (h : Inv s) (hs : step cfg s a = some s') (c : Nat)
+    (hc : (s.chan c).stat.fresh = false) :
+    (s'.chan c).start = (s.chan c).start ∧ (s'.chan c).stat.fresh = false := by
+  cases a with
+  | callSub cap =>
+    simp only [step, Option.some.injEq] at hs; subst hs
+    have hne : c ≠ s.nchan := by
+      intro e
+      have := h.alloc c (by omega)
+      rw [this] at hc; cases hc
+    simp [hne, hc]
+  | callUnsub d =>
+    simp only [step] at hs
+    split at hs
+    · cases hs
+      by_cases hj : c = d
+      · subst hj; simp [CStat.fresh]
+      · simp [hj, hc]
+    · cases hs
+      by_cases hj : c = d
+      · subst hj; simp [CStat.fresh]
+      · simp [hj, hc]
+    · cases hs
+  | callSend sd =>
+    simp only [step] at hs
+    split at hs
+    · cases hs
+    · cases hs; exact ⟨rfl, hc⟩
+  | recvTrace k =>
+    simp only [step] at hs
+    split at hs
+    · cases hs; exact ⟨rfl, hc⟩
+    · cases hs
+  | recvSub d =>
+    simp only [step] at hs
+    split at hs
+    · next hpc hst =>
+      cases hs
+      have hne : c ≠ d := by
+        intro e; subst e; rw [hst] at hc; cases hc
+      simp [St.acceptSub, hne, hc]
+    · cases hs
+  | recvUnsub d =>
+    simp only [step] at hs
+    split at hs
+    · split at hs
+      · cases hs
+        by_cases hj : c = d
+        · subst hj; simp [St.removeSub, CStat.fresh]
+        · simp [St.removeSub, hj, hc]
+      · cases hs; exact ⟨rfl, hc⟩
+    · cases hs
+  | push =>
+    simp only [step] at hs
+    split at hs
+    · split at hs
+      · split at hs
+        · cases hs
+          obtain ⟨a, b⟩ := deliver_chan s _ _ _ c
+          exact ⟨a, by rw [b]; exact hc⟩
+        · cases hs
+      · cases hs
+    · cases hs
+  | consume d =>
+    simp only [step] at hs
+    split at hs
+    · obtain ⟨a, b⟩ := read_chan hs c
+      exact ⟨a, by rw [b]; exact hc⟩
+    · cases hs
+  | drain d =>
+    simp only [step] at hs
+    split at hs
+    · obtain ⟨a, b⟩ := read_chan hs c
+      exact ⟨a, by rw [b]; exact hc⟩
+    · cases hs
+  | subReturn d =>
+    simp only [step] at hs
+    split at hs
+    · cases hs
+      by_cases hj : c = d
+      · subst hj; simp [CStat.fresh]
+      · simp [hj, hc]
+    · cases hs
+  | takeOk d =>
+    simp only [step] at hs
+    split at hs
+    · split at hs
+      · cases hs
+        by_cases hj : c = d
+        · subst hj; simp [St.finishUnsub, CStat.fresh]
+        · simp [St.finishUnsub, hj, hc]
+      · cases hs
+    · cases hs
+
+/-- before any `Send` has begun the log is empty -/
+def Act.isSend : Act → Bool
+  | .callSend _ => true
+  | _ => false
+
+theorem step_nosend {cfg : Cfg} {s s' : St} {a : Act} (ha : a.isSend = false) (hs : step cfg s a = some s')
+    (h0 : s.log = [] ∧ s.pending = []) : s'.log = [] ∧ s'.pending = [] := by
+  cases a with
+  | callSub cap => simp only [step, Option.some.injEq] at hs; subst hs; exact h0
+  | callUnsub d =>
+    simp only [step] at hs
+    split at hs
+    · cases hs; exact h0
+    · cases hs; exact h0
+    · cases hs
+  | callSend sd => cases ha
+  | recvTrace k =>
+    simp only [step] at hs
+    split at hs
+    · next x hpc hx => rw [h0.2] at hx; cases hx
+    · cases hs
+  | recvSub d =>
+    simp only [step] at hs
+    split at hs
+    · cases hs; exact h0
+    · cases hs
+  | recvUnsub d =>
+    simp only [step] at hs
+    split at hs
+    · split at hs
+      · cases hs; exact h0
+      · cases hs; exact h0
+    · cases hs
+  | push =>
+    simp only [step] at hs
+    split at hs
+    · split at hs
+      · split at hs
+        · cases hs
+          obtain ⟨a, b, _⟩ := same_deliver s _ _ _
+          rw [a, b]; exact h0
+        · cases hs
+      · cases hs
+    · cases hs
+  | consume d =>
+    simp only [step] at hs
+    split at hs
+    · obtain ⟨a, b, _⟩ := same_read hs
+      rw [a, b]; exact h0
+    · cases hs
+  | drain d =>
+    simp only [step] at hs
+    split at hs
+    · obtain ⟨a, b, _⟩ := same_read hs
+      rw [a, b]; exact h0
+    · cases hs
+  | subReturn d =>
+    simp only [step] at hs
+    split at hs
+    · cases hs; exact h0
+    · cases hs
+  | takeOk d =>
+    simp only [step] at hs
+    split at hs
+    · split at hs
+      · cases hs; exact h0
+      · cases hs
+    · cases hs
+
+theorem run_nosend (cfg : Cfg) (pre : List Act) (hpre : ∀ a ∈ pre, a.isSend = false) :
+    ∀ s : St, (s.log = [] ∧ s.pending = []) → (run cfg s pre).log = [] := by
+  induction pre with
+  | nil => intro s h; exact h.1
+  | cons a l ih =>
+    intro s h
+    show (run cfg (step' cfg s a) l).log = []
+    apply ih (fun b hb => hpre b (List.mem_cons_of_mem _ hb))
+    unfold step'
+    cases hs : step cfg s a with
+    | none => exact h
+    | some s' => exact step_nosend (hpre a (by simp)) hs h
+
+/-- a channel that is in the list, with `start = 0`, keeps both through every schedule (unless misuse) -/
+theorem start_zero_run (cfg : Cfg) (c : Nat) (post : List Act) : ∀ s : St,
+    (s.misuse = false → Inv s ∧ (s.chan c).stat.fresh = false ∧ (s.chan c).start = 0) →
+    (run cfg s post).misuse = false →
+    Inv (run cfg s post) ∧ ((run cfg s post).chan c).stat.fresh = false ∧ ((run cfg s post).chan c).start = 0 := by
+  induction post with
+  | nil => intro s h hm; exact h hm
+  | cons a l ih =>
+    intro s h
+    show (run cfg (step' cfg s a) l).misuse = false → _
+    apply ih
+    intro hm
+    have hl : s.misuse = false := by
+      cases hb : s.misuse with
+      | false => rfl
+      | true => rw [step'_misuse hb] at hm; cases hm
+    obtain ⟨hinv, hf, hz⟩ := h hl
+    unfold step' at hm ⊢
+    cases hs : step cfg s a with
+    | none => exact ⟨hinv, hf, hz⟩
+    | some s' =>
+      rw [hs] at hm
+      obtain ⟨e1, e2⟩ := step_start_stable hinv hs c hf
+      exact ⟨inv_step hinv hs hm, e2, by simp only [Option.getD_some]; rw [e1]; exact hz⟩
+
 end Bpmn.Model.Tracer
